@@ -239,6 +239,46 @@ struct Run
         c.feature("c14_relations", std::string(opName[op]) + ":" + relation(sp, tp, false));
     }
 
+    // a handle (reference to the payload) obtained BEFORE the copy was made: writing through it afterwards changes the
+    // original only. Copies that share storage lazily (copy-on-write keyed on a later accessor call) fail exactly here.
+    void staleHandle(const Proto& sp, const Proto& tp, int op)
+    {
+        if (!sp.hasPayload)
+            return;
+        ++c.evaluations;
+        Packet src = sp.make();
+        ASAM::CMP::Payload& handle = src.getPayload();
+        std::unique_ptr<Packet> tgt;
+        if (op == 0)
+            tgt.reset(new Packet(src));
+        else
+        {
+            tgt.reset(new Packet(tp.make()));
+            *tgt = src;
+        }
+        const Packet& ctgt = *tgt;  // observe the copy through const access only
+        const PacketSnap before = snapPacket(ctgt, true);
+        handle.setRawPayloadType(static_cast<uint8_t>(handle.getRawPayloadType() ^ 0x3C));
+        handle.setMessageType(ASAM::CMP::CmpHeader::MessageType::vendor);
+        const PacketSnap after = snapPacket(ctgt, true);
+        if (after != before)
+            fail("copy-changes-when-original-is-modified-through-earlier-reference",
+                 std::string(op == 0 ? "copy-constructed" : "copy-assigned") + " packet changed from " + before.str() + " to " + after.str() + " when the original's payload was modified through a reference taken before the copy", sp, tp);
+        // the other direction: a handle into the copy taken right after copying, original observed through const access
+        Packet src2 = sp.make();
+        Packet cpy(src2);
+        ASAM::CMP::Payload& h2 = cpy.getPayload();
+        const Packet& csrc2 = src2;
+        const PacketSnap b2 = snapPacket(csrc2, true);
+        Packet third(cpy);  // a further copy made while a handle into cpy exists
+        h2.setRawPayloadType(static_cast<uint8_t>(h2.getRawPayloadType() ^ 0x5A));
+        const Packet& cthird = third;
+        PacketSnap t3 = snapPacket(cthird, true);
+        if (snapPacket(csrc2, true) != b2 || t3 != b2)
+            fail("copy-changes-when-original-is-modified-through-earlier-reference", "modifying a copy through a reference changed the original or a further copy of it", sp, tp);
+        c.count("stale_handle_checks");
+    }
+
     void selfAssign(const Proto& sp)
     {
         ++c.evaluations;
@@ -372,8 +412,12 @@ inline void round(Ctx& c, long idx)
     {
         run.selfAssign(pool[i]);
         for (size_t j = 0; j < pool.size(); ++j)
+        {
             for (int op = 0; op < 4; ++op)
                 run.pair(pool[i], pool[j], op);
+            run.staleHandle(pool[i], pool[j], 0);
+            run.staleHandle(pool[i], pool[j], 2);
+        }
     }
     run.equality(pool);
     run.payloads(r);
